@@ -185,3 +185,45 @@ Proof.
   split; [exact math_functions_go_to_mathfunction | exact literals_keep_their_value].
 Qed.
 Print Assumptions C01_connectives_conditionals_arithmetic_and_functions_keep_their_meaning.
+
+(* the component maps of the value numbering (ffcx/ir/analysis/indexing.py; model Indexing.v tied by idxcorr.py on every call
+   made while the corpus is compiled): component p1 of  e1 = e2[multiindex]  is read from the component of e2 that the
+   multi-index addresses under the values p1 of e1's free indices, and likewise for  e2 = as_tensor(e1, multiindex) *)
+From FFCX Require Import Indexing.
+
+Theorem C01_indexed_component_map_is_what_indexing_means :
+  forall tsh1 tsh2 mi ind2to1 p1, Indexing.in_range tsh1 p1 ->
+    nth (flatten p1 (strides tsh1)) (map_indexed tsh1 tsh2 mi ind2to1) 0%nat
+    = flatten (p2_of mi ind2to1 p1) (strides tsh2).
+Proof. exact map_indexed_spec. Qed.
+Print Assumptions C01_indexed_component_map_is_what_indexing_means.
+
+Theorem C01_component_tensor_map_is_what_as_tensor_means :
+  forall tsh1 tsh2 p2to1 p2, Indexing.in_range tsh2 p2 ->
+    nth (flatten p2 (strides tsh2)) (map_ct tsh1 tsh2 p2to1) 0%nat
+    = flatten (p1_of (List.length tsh1) p2to1 p2) (strides tsh1).
+Proof. exact map_ct_spec. Qed.
+Print Assumptions C01_component_tensor_map_is_what_as_tensor_means.
+
+Theorem C01_multi_indices_are_enumerated_row_major :
+  forall shape p, Indexing.in_range shape p -> nth (flatten p (strides shape)) (enumerate shape) nil = p.
+Proof. exact enumerate_is_row_major. Qed.
+Print Assumptions C01_multi_indices_are_enumerated_row_major.
+
+(* reconstruct.handle_index_sum: output component (pre = i, post = k) of an IndexSum sums exactly the d components of the
+   summand that differ from it in the axis of the summation index *)
+Theorem C01_index_sum_groups_the_components_along_the_summed_axis :
+  forall predim d postdim i k, (i < predim)%nat -> (k < postdim)%nat ->
+    nth (i * postdim + k) (index_sum_groups predim d postdim) nil
+    = map (fun j => flatten (cons i (cons j (cons k nil))) (strides (cons predim (cons d (cons postdim nil))))) (seq 0 d).
+Proof. exact index_sum_spec. Qed.
+Print Assumptions C01_index_sum_groups_the_components_along_the_summed_axis.
+
+(* reconstruct.handle_product with free indices on both operands: component `ind` of the product multiplies the components
+   of the operands addressed by the values of their own free indices *)
+Theorem C01_product_components_pair_the_operands_by_their_free_indices :
+  forall fid fid0 fid1 indmap0 indmap1 ind, Indexing.in_range fid ind ->
+    nth (flatten ind (strides fid)) (product_pairs fid fid0 fid1 indmap0 indmap1) (0%nat, 0%nat)
+    = (flatten (pick ind indmap0) (strides fid0), flatten (pick ind indmap1) (strides fid1)).
+Proof. exact product_pairs_spec. Qed.
+Print Assumptions C01_product_components_pair_the_operands_by_their_free_indices.
